@@ -2150,7 +2150,19 @@ insert_list:
             while (unlikely(resume_threads_inlined(vcpu, rq) > 0) ||
                    likely(!AtomicRunQ(rq).single())   ||
                    likely(try_work_stealing(vcpu))) {
-                thread_yield();
+                {
+                    // Test and switch in one critical section: a passive work stealer
+                    // on another vCPU may have emptied the runq since the test above,
+                    // and yielding with nobody else in it is not allowed.
+                    Switch sw;
+                    {
+                        AtomicRunQ arq(rq);
+                        if (unlikely(arq.single())) continue;
+                        sw = arq.goto_next();
+                    }
+                    if_update_now();
+                    switch_context(sw.from, sw.to);
+                }
                 if (vcpu->state == states::DONE)
                     break;
                 if (unlikely(sat_sub(now, last_idle) >= 1000ULL)) {
